@@ -581,7 +581,7 @@ func (g *FnGen) execAppend(s *State, com *ssa.CallCommon, res ssa.Value) {
 	g.assume(s, app(">=", ncap, newLen))
 	sorts := map[string]bool{}
 	g.cellSorts(et, sorts)
-	for k := range sorts {
+	for _, k := range sortedKeys(sorts) {
 		nh := g.fresh(heapName(k)+"_ap", "(Array Ref "+k+")")
 		g.defs = append(g.defs, eq(nh, ite(inplace, g.heap(s1, k), g.heap(s2, k))))
 		s.heaps[k] = nh
